@@ -102,6 +102,8 @@ def merge_vcs(env, want):
     out = []
 
     def on(c):
+        if env.get('bare_first') and c not in (C_FRAME, C_FRESH, C_ONLY_VE):
+            return False      # an input assembled by hand without provenance: only the frame / exception clauses are stated for it
         return want is None or any(p in want for p in c.props)
 
     in_views = [sig_view(i.sig) for i in infos]
@@ -398,7 +400,7 @@ def law_vcs(env, want):
     return out
 
 
-def make_runner(shapes_, want=None, alias_funcs=True, wf_inputs=True, mode='merge'):
+def make_runner(shapes_, want=None, alias_funcs=True, wf_inputs=True, mode='merge', bare_first=False):
     """returns (run(ctx, r), env) for merge over input signatures of the given shapes"""
     I = Interp()
     from vf import world as _world
@@ -493,6 +495,16 @@ def make_runner(shapes_, want=None, alias_funcs=True, wf_inputs=True, mode='merg
         env['infos'] = infos
         env['r'] = r
         r.inputs = infos
+        env['bare_first'] = bare_first
+        if bare_first:
+            # the first input was assembled by hand from parameters: it carries no provenance at all (sources == {})
+            empty = SymDict()
+            sym.mark_input(empty, 'sources map of s0 (empty)')
+            infos[0].sig._d['sources'] = empty
+            infos[0].src = empty
+            for p in infos[0].params:
+                p._d['sources'] = sym.TList([])
+                p._d['source_depths'] = SymDict()
         run_unit(I, m.ns['merge'], [i.sig for i in infos], [], r)
     return run, env
 
@@ -637,7 +649,7 @@ def real_sig_data(sig, fkey):
 def crosscheck(env, r):
     """differential check of the generator against CPython on this path: one concrete witness of the path
     condition is run through the REAL function and the outcomes are compared"""
-    if env.get('mode', 'merge') != 'merge':
+    if env.get('mode', 'merge') != 'merge' or env.get('bare_first'):
         return None
     from vf.concrete import Concretizer, real_sigtools
     from vf import rt
